@@ -112,7 +112,7 @@ def sunflower(l, c, m):
 
     H = Hypergraph()
     start_label = c
-    while start_label + (m - c) <= c + (m - c) * l:
+    for _ in range(l):
         H.add_edge(core_nodes + [start_label + i for i in range(m - c)])
         start_label = start_label + (m - c)
 
